@@ -35,7 +35,15 @@ def spellable(knames):
                             ["dep", ["union", [["cls", "int"], ["cls", "str"]]], "truthy"],
                             ["dep", ["union", [["cls", "list"], ["cls", "tuple"]]], "short"]])
     typ = cls.map(lambda c: ["type", c])  # type[A] (takes class objects; respelled type[Annotated[A, ...]])
-    return st.one_of(union, union, optional, st.just(["obj"]), lit, lst, cls, depu, typ)
+    # unions whose members share their __name__ (two list[...], two type[...], two Literal[...]): member order again
+    samename = st.one_of(
+        st.lists(cls, min_size=2, max_size=3, unique_by=repr).map(lambda m: ["union", [["listof", c] for c in m]]),
+        st.lists(cls, min_size=2, max_size=3, unique_by=repr).map(lambda m: ["union", [["type", c] for c in m]]),
+        st.just(["union", [["lit", [0, 1]], ["lit", ["a"]], ["lit", [2]]]]))
+    # typing.Any (counts as object) and bare type (type[object]) as union members
+    special = st.one_of(st.just(["union", [["anyT"], ["cls", "NoneType"]]]), cls.map(lambda c: ["union", [["anyT"], c]]),
+                        st.just(["union", [["type"], ["cls", "NoneType"]]]), cls.map(lambda c: ["union", [["type"], c]]))
+    return st.one_of(union, union, optional, st.just(["obj"]), lit, lst, cls, depu, typ, samename, special)
 
 
 def case_strategy():
@@ -56,6 +64,17 @@ def case_strategy():
         # pick a parameter whose annotation can be respelled
         cands = [(m["id"], p["name"]) for m in methods for p in m["pos"] + m["kw"]]
         mid, pname = draw(st.sampled_from(cands))
+        if draw(st.integers(0, 3)) == 0:
+            # a redeclaration: the method is registered a second time, and it is the second registration that gets
+            # respelled - an equivalent spelling must replace the first one exactly like the identical spelling does
+            src = next(m for m in methods if m["id"] == mid)
+            if not any(q.get("posonly") for q in src["pos"]):
+                import copy as _copy
+
+                dup = _copy.deepcopy(src)
+                dup["id"] = max(m["id"] for m in methods) + 1
+                methods.append(dup)
+                mid = dup["id"]
         p = next(q for m in methods if m["id"] == mid for q in m["pos"] + m["kw"] if q["name"] == pname)
         a = p["ann"]
         options = ["annotated", "string", "string-annotated"]
